@@ -22,6 +22,31 @@ func extractArchiver() {
 			}
 			s.boolean("retryStartsAtZero", strings.ReplaceAll(src(fs.Init), " ", "") == "retry:=0")
 			s.boolean("retryIncrements", strings.ReplaceAll(src(fs.Post), " ", "") == "retry++")
+			// the counter is written by nothing but the loop header, and nothing jumps backwards
+			touched := false
+			for _, m := range allNodes(fs.Body) {
+				switch x := m.(type) {
+				case *ast.AssignStmt:
+					for _, l := range x.Lhs {
+						if src(l) == "retry" {
+							touched = true
+						}
+					}
+				case *ast.IncDecStmt:
+					if src(x.X) == "retry" {
+						touched = true
+					}
+				case *ast.UnaryExpr:
+					if x.Op.String() == "&" && src(x.X) == "retry" {
+						touched = true
+					}
+				case *ast.BranchStmt:
+					if x.Tok.String() == "goto" {
+						touched = true
+					}
+				}
+			}
+			s.boolean("retryCounterOnlyInHeader", !touched)
 		}
 	}
 	s.op("retryLoopOp", loopOp, loopOk)
